@@ -332,6 +332,16 @@ def parse_mir(text):
             fns.append(cur)
             bb = None
             continue
+        m = re.match(r'^const (.*): ([^:]+) = const (.*);$', line)
+        if m:
+            f = Fn(m.group(1), line)
+            f.ret = m.group(2)
+            f.kind = 'const-inline'
+            f.value = m.group(3)
+            fns.append(f)
+            cur = None
+            bb = None
+            continue
         m = re.match(r'^(static mut|static|const) (.*): ([^:]+) = \{$', line)
         if m:
             cur = Fn(m.group(2), line)
@@ -735,12 +745,29 @@ class Machine:
             return Ref([Arr(len(body), I(0, 'u8'), {i: I(b, 'u8') for i, b in enumerate(body)})], 0)
         m = re.match(r'^.*::promoted\[(\d+)\]$', s)
         if m:
+            v = self.prog.resolve_const(self, fr, s)       # program-specific treatment first (e.g. thread_local keys)
+            if v is not None:
+                return v
             f = self.prog.find_promoted(fr.fn, s)
             return self.run(f, [], fr.subst)
         # generic/associated constants are resolved by the program (e.g. `M`, `<u32 as FixedSizeInteger>::BASE_10_LEN`)
         v = self.prog.resolve_const(self, fr, s)
         if v is not None:
             return v
+        # a named constant of the crate: evaluate its MIR body (const items are printed like functions)
+        tail = s.split('::')[-1]
+        if re.match(r'^[A-Z_][A-Z0-9_]*$', tail):
+            inl = [f for f in self.prog.fns if getattr(f, 'kind', None) == 'const-inline' and f.name.split('::')[-1] == tail]
+            if len(inl) == 1:
+                return self.const(fr, inl[0].value)
+            cands = [f for f in self.prog.fns if getattr(f, 'kind', None) == 'const' and f.name.split('::')[-1] == tail and 'promoted' not in f.name]
+            if len(cands) > 1:
+                # prefer the one declared inside the current function / impl
+                pref = [f for f in cands if f.name.rsplit('::', 1)[0] in fr.fn.name or fr.fn.name.rsplit('::', 1)[0] in f.name]
+                cands = pref or cands
+            if len(cands) >= 1:
+                v = self.run(cands[0], [], fr.subst)
+                return v
         raise Unsupported('const ' + s)
 
     def operand(self, fr, op):
@@ -849,13 +876,13 @@ class Machine:
                     m2 = mk_dec(nd, 'u' + ty[1:])
                     r = I(z3.simplify(-m2.z()), ty, negof=m2)
                 return [r, bnot(mk_bool(fits))]
-        if op in ('Div', 'Rem') and not sg and not b.sym() and b.v == 10 and a.dec is not None:
-            # decimal-structure lemma (discharged separately per width and digit count, see lemma_dec):
-            # (sum_{i<n} d_i 10^i) div 10 = sum_{i>=1} d_i 10^(i-1) and mod 10 = d_0
+        if op in ('Div', 'Rem') and not sg and not b.sym() and a.dec is not None and b.v >= 10 and str(b.v).strip('0') == '1':
+            # decimal-structure lemma L1: (sum_{i<n} d_i 10^i) div 10^k = sum_{i>=k} d_i 10^(i-k) and mod 10^k = sum_{i<k} d_i 10^i
+            k = len(str(b.v)) - 1
             self.prog.used_lemmas.add((bits, len(a.dec)))
             if op == 'Div':
-                return mk_dec(a.dec[1:], ty)
-            return mk_int(z3.ZeroExt(bits - 8, a.dec[0]), ty)
+                return mk_dec(a.dec[k:], ty)
+            return mk_dec(a.dec[:k], ty)
         x = a.z()
         if op in ('Shl', 'Shr', 'ShlUnchecked', 'ShrUnchecked'):
             y = b.z()
@@ -914,6 +941,10 @@ class Machine:
         raise Unsupported('binop ' + op)
 
     def cast_int(self, v, ty):
+        if isinstance(v, I) and v.dec is not None and ty[0] == 'u' and v.ty[0] == 'u' and ty in BITS:
+            # an annotated value with fewer digits than the target's maximum certainly fits: the annotation survives
+            if len(v.dec) < len(str((1 << BITS[ty]) - 1)) or BITS[ty] >= BITS[v.ty]:
+                return mk_dec(v.dec, ty)
         if isinstance(v, (bool, z3.BoolRef)):
             if isinstance(v, bool):
                 return I(int(v), ty)
